@@ -7,7 +7,9 @@ from . import designlevel, pywire
 def sigs(case, evt, clause):
     out = []
     t = case.prog["rtype"]
-    if any(e.get("_default", 0) != 0 for e in pywire.enum_types(t)) and evt["ev"] in ("Decode", "ReEncode"):
+    stage_ok = evt["ev"] in ("Decode", "ReEncode") or \
+        (evt["ev"] == "Raise" and evt["what"].split("@")[-1] in ("decode", "re-encode"))
+    if stage_ok and any(e.get("_default", 0) != 0 for e in pywire.enum_types(t)):
         out.append("py-decode-onto-nonzero-enum-default")
     return out
 
